@@ -194,7 +194,16 @@ func (c TemplateContext) funcHTTPInclude(uri string) (string, error) {
 		return "", err
 	}
 	virtReq.Host = c.Req.Host
-	virtReq.RemoteAddr = "127.0.0.1:10000" // https://github.com/caddyserver/caddy/issues/5835
+	// the virtual request is made on behalf of the client of the outer
+	// request: give it that client's address (never an empty one, see
+	// https://github.com/caddyserver/caddy/issues/5835) rather than a
+	// loopback address, which, when loopback is a trusted proxy, would
+	// make the server honour the forwarding headers cloned below even
+	// though an untrusted client sent them
+	virtReq.RemoteAddr = c.Req.RemoteAddr
+	if virtReq.RemoteAddr == "" {
+		virtReq.RemoteAddr = "127.0.0.1:10000"
+	}
 	virtReq.Header = c.Req.Header.Clone()
 	virtReq.Header.Set("Accept-Encoding", "identity") // https://github.com/caddyserver/caddy/issues/4352
 	virtReq.Trailer = c.Req.Trailer.Clone()
